@@ -7,8 +7,9 @@ Reference terminal and specification: `SurfModel.Screen` (`exec`, `display`, `Sc
 
 Proved for ALL terminal sizes, ALL parameter functions satisfying `ParamsOk`, ALL histories of frames,
 skipped frames, `clear()` and re-creations whose frames are `WellPlaced` (narrow and wide characters
-anywhere — also hidden under wide characters or images —, three kinds of cells, any faces; image areas
-inside the terminal, pairwise disjoint, not touching a wide character).  Outside `WellPlaced` the code is
+anywhere — also hidden under wide characters or under images —, three kinds of cells, any faces; image
+areas inside the terminal and pairwise disjoint; no wide character cut by the edge of an image area,
+i.e. with exactly one of its two cells inside the area).  Outside `WellPlaced` the code is
 known to fail (known finding C01-img); the statement on the whole domain is kept as `C01_history_full`.
 -/
 namespace SurfProofs.C01
@@ -26,13 +27,14 @@ def AllDom (P : Params) (h w : Nat) (steps : List Step) : Prop := ∀ s, Step.fr
 
 /-- The specification is not vacuous: outside image areas and shadows of wide characters `display`
 shows every cell's own character in the cell's own face; the cell after a displayed wide character
-shows its right half; inside the area of an image cell `q` it shows a blank in the face of `q`; the
+shows its right half; inside the area of an image cell `q` it shows what erasing in the face of `q`
+gives (`blankOf`: a blank, without the attributes a printed space would show); the
 placements are exactly the image (and glyph) cells. -/
 theorem C01_display_shows (P : Params) (H W : Nat) (s : Surface) (r c : Nat) :
-    (coverOf P H W s (r, c) = none → shadowed P s r c = false → ∀ ch, (s r c).kind = .chr ch →
+    (coverOf P H W s (r, c) = none → shadowed P H W s r c = false → ∀ ch, (s r c).kind = .chr ch →
       (display P H W s).grid r c = .glyph ch (s r c).face) ∧
-    (coverOf P H W s (r, c) = none → shadowed P s r c = true → (display P H W s).grid r c = .cont) ∧
-    (∀ q, coverOf P H W s (r, c) = some q → (display P H W s).grid r c = .glyph 32 (s q.1 q.2).face) ∧
+    (coverOf P H W s (r, c) = none → shadowed P H W s r c = true → (display P H W s).grid r c = .cont) ∧
+    (∀ q, coverOf P H W s (r, c) = some q → (display P H W s).grid r c = blankOf P (s q.1 q.2).face) ∧
     (r < H → c < W → (display P H W s).place r c = imgOf P (s r c)) := by
   refine ⟨?_, ?_, ?_, ?_⟩
   · intro hcov hs ch hk
@@ -149,11 +151,12 @@ def C01_history_full : Prop :=
 /-! ### the hypotheses are satisfiable, non-trivially -/
 
 /-- a `unicode-width`-like parameter: NUL has no width, U+4E16 is wide, everything else narrow;
-images are 1 × 2 cells except image 7 (2 × 2) -/
+images are 1 × 2 cells except image 7 (2 × 2); face 2 is underlined -/
 def exP : Params :=
   { width := fun ch => if ch = 0 then 0 else if ch = 19990 then 2 else 1
     size := fun i => if i = 7 then (2, 2) else (1, 2)
-    raster := fun _ _ => 3 }
+    raster := fun _ _ => 3
+    plain := fun f => f != 2 }
 
 theorem exP_ok : ParamsOk exP := by
   refine ⟨?_, by simp [exP], by simp [exP]⟩
@@ -161,12 +164,13 @@ theorem exP_ok : ParamsOk exP := by
   · omega
   · split <;> omega
 
-/-- 3 × 6 surface: a wide character with a hidden cell behind it, a 2 × 2 image with characters hidden
-under it, a glyph (drawn as a 1 × 2 image), narrow characters in three faces -/
+/-- 3 × 6 surface: a wide character with a hidden cell behind it, a 2 × 2 image with characters (one of them wide)
+hidden under it, a glyph (drawn as a 1 × 2 image), narrow characters in three faces -/
 def exSurf : Surface := fun r c =>
   if r = 0 ∧ c = 0 then ⟨1, .chr 19990⟩
   else if r = 0 ∧ c = 1 then ⟨2, .chr 120⟩
   else if r = 0 ∧ c = 3 then ⟨2, .img 7⟩
+  else if r = 1 ∧ c = 3 then ⟨1, .chr 19990⟩
   else if r = 1 ∧ c = 4 then ⟨1, .chr 98⟩
   else if r = 2 ∧ c = 0 then ⟨1, .gly 5⟩
   else if r = 2 ∧ c = 5 then ⟨2, .chr 97⟩
@@ -177,6 +181,56 @@ theorem exSurf_dom : Dom exP 3 6 exSurf := wellPlacedB_sound exP 3 6 exSurf (by 
 /-- `C01_fresh`, `C01_frame`, `C01_clear_repaints`: a concrete surface of the domain -/
 example : ParamsOk exP ∧ SizeOk 3 6 ∧ Dom exP 3 6 exSurf ∧ Rel exP (new 3 6 true) blank :=
   ⟨exP_ok, Or.inl (by omega), exSurf_dom, C01_start_blank exP exP_ok 3 6 true⟩
+
+/-- `C01_start_any`, `C01_clear_repaints`: a terminal showing something else — a wide character with
+its right half, an orphaned half, narrow characters in another face — is well formed -/
+def exScr : Screen :=
+  { grid := fun r c =>
+      if r = 0 ∧ c = 0 then .glyph 19990 1
+      else if r = 0 ∧ c = 1 then .cont
+      else if r = 1 ∧ c = 2 then .orphan
+      else .glyph 120 2
+    cur := (2, 5), face := 2, place := fun _ _ => none }
+
+example : WF exP exScr ∧ (∀ r c, exScr.place r c = none) ∧ exScr.grid 0 1 = .cont := by
+  refine ⟨?_, fun _ _ => rfl, rfl⟩
+  intro r
+  refine ⟨by simp only [exScr]; split <;> simp, ?_⟩
+  intro c
+  by_cases hr : r = 0 <;> by_cases hc : c = 0
+  · subst hr; subst hc
+    simp only [exScr]
+    constructor
+    · intro _; exact ⟨19990, 1, by simp, by simp [exP]⟩
+    · intro _; simp
+  · have h1 : ¬ (c + 1 = 0) := by omega
+    have h2 : ¬ (c + 1 = 1) := by omega
+    subst hr
+    simp only [exScr, hc, h1, h2, and_false, true_and, if_false]
+    constructor
+    · intro h; split at h <;> simp at h
+    · rintro ⟨ch, f, he, hw⟩
+      split at he
+      · cases he
+      · split at he
+        · cases he
+        · cases he; simp [exP] at hw
+  · have h1 : ¬ (c + 1 = 0) := by omega
+    simp only [exScr, hr, false_and, if_false]
+    subst hc
+    constructor
+    · intro h; split at h <;> simp at h
+    · rintro ⟨ch, f, he, hw⟩
+      split at he
+      · cases he
+      · cases he; simp [exP] at hw
+  · simp only [exScr, hr, false_and, if_false]
+    constructor
+    · intro h; split at h <;> simp at h
+    · rintro ⟨ch, f, he, hw⟩
+      split at he
+      · cases he
+      · cases he; simp [exP] at hw
 
 /-- `C01_history_partial`: a history with every kind of step that meets the hypotheses -/
 example : AllDom exP 3 6 [.frame exSurf, .skip, .clear, .frame blankSurf, .recreate, .frame exSurf] := by
@@ -193,7 +247,7 @@ example : AllDom exP 3 6 [.frame exSurf, .skip, .clear, .frame blankSurf, .recre
 /-- on that surface the specification really shows a wide character, its right half, the blank area
 of the image in the image cell's face, the faces, and the two placements -/
 example : (display exP 3 6 exSurf).grid 0 0 = .glyph 19990 1 ∧ (display exP 3 6 exSurf).grid 0 1 = .cont ∧
-    (display exP 3 6 exSurf).grid 1 4 = .glyph 32 2 ∧ (display exP 3 6 exSurf).grid 2 5 = .glyph 97 2 ∧
+    (display exP 3 6 exSurf).grid 1 4 = .erased 2 ∧ (display exP 3 6 exSurf).grid 2 5 = .glyph 97 2 ∧
     (display exP 3 6 exSurf).place 0 3 = some 7 ∧ (display exP 3 6 exSurf).place 2 0 = some 3 := by
   decide
 
